@@ -50,8 +50,12 @@ class NotAnInt:
 
 
 class CallableObject:
+    """a callback may be any callable: this one is an (empty) container too, hence falsy"""
     def __init__(self, ran, pass_exc):
         self.ran, self.pass_exc = ran, pass_exc
+
+    def __len__(self):
+        return 0
 
     def __call__(self, *args):
         if self.pass_exc:
@@ -150,7 +154,8 @@ async def do_action(a, who):
                     raise TdErr(cid)             # the callback fails: the others still run, and this comes out
             if cid % 7 == 3 and not pass_exc and cid % 3 != 2 and cid % 5 != 4 and cid % 4 != 1:
                 # the callback comes with a resource published under two types: ONE callback, called once
-                ctx.add_resource(TdRes(), f"tdres{cid}", [TdA, TdB], teardown_callback=lambda: ran("noarg"))
+                ctx.add_resource(TdRes(), f"tdres{cid}", [TdA, TdB],
+                                 teardown_callback=CallableObject(ran, False) if cid % 2 else (lambda: ran("noarg")))
             elif cid % 4 == 1 and cid % 3 != 2 and pass_exc and top and who != "driver":
                 # the second half of a @context_teardown function -- ONE decorated function shared by every such
                 # registration of the run, as the components of one class share their start()
